@@ -272,8 +272,15 @@ func NewEnv(o Options) *Env {
 	}); err != nil {
 		panic(err)
 	}
+	// messages and block hooks run in the mode baseapp gives them inside FinalizeBlock
 	e.base = e.App.BaseApp.NewContext(false).WithBlockHeight(1).WithBlockTime(o.GenesisTime).
-		WithChainID(ChainID)
+		WithChainID(ChainID).WithExecMode(sdk.ExecModeFinalize)
+	// Block 1 is "in progress" for every case: on a chain its begin blockers have run before the first transaction
+	// (service, for one, only sets up its per-block context counter there).
+	first := &Case{E: e, Ctx: e.base.WithEventManager(sdk.NewEventManager()), EVMState: evm.NewState(), IrismodOnly: true}
+	if r := first.BeginBlock(); r.Outcome != OK {
+		panic(fmt.Sprintf("begin blockers of block 1 failed: %v", r))
+	}
 	return e
 }
 
@@ -363,8 +370,13 @@ func (c *Case) nextTxBytes() []byte {
 	var b [16]byte
 	binary.BigEndian.PutUint64(b[:8], 0x7665726966)
 	binary.BigEndian.PutUint64(b[8:], c.txCounter)
-	return b[:]
+	// transactions of equal and of different length both occur (two in three share a length with their successor)
+	return append(b[:], make([]byte, (c.txCounter/2)%3)...)
 }
+
+// NewTxBytes hands out fresh unique tx bytes; passing the same bytes to several DeliverTx calls models the
+// messages of one transaction signed by several accounts (they share the transaction hash).
+func (c *Case) NewTxBytes() []byte { return c.nextTxBytes() }
 
 // Deliver routes one message as baseapp would inside a transaction of its own.
 func (c *Case) Deliver(msg sdk.Msg) Result { return c.DeliverTx(nil, msg)[0] }
